@@ -22,10 +22,9 @@
      Err arm: update status Failed `?` · fail_lease `?`
      renewal_handle.abort(); active_compactions -= 1
 
-   Every `?` after acquire_lease leaves the function at once: the renewal task
-   keeps running (the lease is renewed for ever), the lease is neither
-   completed nor failed and the active counter stays incremented
-   ([early_return]).
+   Every `?` after acquire_lease leaves the function at once: the lease is
+   neither completed nor failed ([early_return]); the GroupGuard (fix 00081bd)
+   stops the renewal task and releases the concurrency slot on that path too.
 
    Metadata operations are atomic steps here.  For LocalMetadataClient that is
    exact (no await inside an operation).  For ObjectStoreMetadataClient every
@@ -219,10 +218,12 @@ Definition see_catalog (p : proc) (c : lcatalog) : proc :=
 Definition end_group (p : proc) (l : lid) (sched : list path) : proc :=
   mkProc Idle (p_snap p) (sched ++ p_pending p) (removeN l (p_renew p)) (p_active p - 1).
 
-(* a `?` after acquire_lease: the function is left at once — renewal task not
-   aborted, lease neither completed nor failed, active counter not decremented *)
-Definition early_return (p : proc) : proc :=
-  mkProc Idle (p_snap p) (p_pending p) (p_renew p) (p_active p).
+(* a `?` after acquire_lease: the function is left at once — the lease is
+   neither completed nor failed (it expires after its TTL); since 00081bd a drop
+   guard stops the renewal task and decrements the active counter on this path
+   too (before, both leaked: the lease was renewed for ever) *)
+Definition early_return (p : proc) (l : lid) : proc :=
+  mkProc Idle (p_snap p) (p_pending p) (removeN l (p_renew p)) (p_active p - 1).
 
 (* ------------------------------------------------------------------ *)
 (* scheduler alphabet                                                   *)
@@ -306,7 +307,7 @@ Definition step_proc (s : state) (c : cid) (f : fault) : state * out :=
       match f with
       | FOk => (set_proc s c (with_pc p (match g with [] => PJobFail l | _ => PRead l g g [] end)),
                 mk_out 3 0 0)
-      | _ => (set_proc s c (early_return p), mk_out 3 0 1)
+      | _ => (set_proc s c (early_return p l), mk_out 3 0 1)
       end
   | PRead l g todo acc =>
       match todo with
@@ -343,27 +344,27 @@ Definition step_proc (s : state) (c : cid) (f : fault) : state * out :=
       end
   | PSwap l g t =>
       match f with
-      | FBefore => (set_proc s c (early_return p), mk_out 7 t 1)
+      | FBefore => (set_proc s c (early_return p l), mk_out 7 t 1)
       | _ =>
           match cat_complete (s_cat s) g t with
-          | None => (set_proc s c (early_return p), mk_out 7 t 1)
+          | None => (set_proc s c (early_return p l), mk_out 7 t 1)
           | Some c' =>
               let p' := see_catalog p c' in
               match f with
               | FOk => (set_proc (set_cat s c') c (with_pc p' (PJobDone l g)), mk_out 7 t 0)
-              | _ => (set_proc (set_cat s c') c (early_return p'), mk_out 7 t 1)
+              | _ => (set_proc (set_cat s c') c (early_return p' l), mk_out 7 t 1)
               end
           end
       end
   | PJobDone l g =>
       match f with
       | FOk => (set_proc s c (with_pc p (PLeaseDone l g)), mk_out 8 0 0)
-      | _ => (set_proc s c (early_return p), mk_out 8 0 1)
+      | _ => (set_proc s c (early_return p l), mk_out 8 0 1)
       end
   | PLeaseDone l g =>
       match f with
-      | FBefore => (set_proc s c (early_return p), mk_out 9 l 1)
-      | FAfter => (set_proc (set_leases s (lease_set_status l 1 (s_leases s))) c (early_return p),
+      | FBefore => (set_proc s c (early_return p l), mk_out 9 l 1)
+      | FAfter => (set_proc (set_leases s (lease_set_status l 1 (s_leases s))) c (early_return p l),
                    mk_out 9 l 1)
       | FOk => (set_proc (set_leases s (lease_set_status l 1 (s_leases s))) c (end_group p l g),
                 mk_out 9 l 0)
@@ -371,12 +372,12 @@ Definition step_proc (s : state) (c : cid) (f : fault) : state * out :=
   | PJobFail l =>
       match f with
       | FOk => (set_proc s c (with_pc p (PLeaseFail l)), mk_out 10 0 0)
-      | _ => (set_proc s c (early_return p), mk_out 10 0 1)
+      | _ => (set_proc s c (early_return p l), mk_out 10 0 1)
       end
   | PLeaseFail l =>
       match f with
-      | FBefore => (set_proc s c (early_return p), mk_out 11 l 1)
-      | FAfter => (set_proc (set_leases s (lease_set_status l 2 (s_leases s))) c (early_return p),
+      | FBefore => (set_proc s c (early_return p l), mk_out 11 l 1)
+      | FAfter => (set_proc (set_leases s (lease_set_status l 2 (s_leases s))) c (early_return p l),
                    mk_out 11 l 1)
       | FOk => (set_proc (set_leases s (lease_set_status l 2 (s_leases s))) c (end_group p l []),
                 mk_out 11 l 0)
